@@ -68,6 +68,7 @@ type spAcctBal struct {
 
 type spObs struct {
 	AcctBal     map[string]spAcctBal `json:"acctBal"`
+	ScopeBal    map[string]map[string]map[string][]int `json:"scopeBal"`
 	Tip         int           `json:"tip"`
 	St          []interface{} `json:"st"`
 	SpentBy     []int         `json:"spentBy"`
@@ -863,6 +864,31 @@ func (w *spWorld) observe(exp *spObs) {
 			}
 		}
 	}
+	// per key scope and account
+	for sc, byAcct := range exp.ScopeBal {
+		for mcs := range map[string]bool{"0": true, "1": true} {
+			mc, _ := strconv.Atoi(mcs)
+			res, err := e.w.AccountBalances(scopeOf[sc], int32(mc))
+			w.n++
+			what := fmt.Sprintf("AccountBalances(%s, minconf %d)", sc, mc)
+			if err != nil {
+				w.add("balance", what, err.Error(), "ok")
+				continue
+			}
+			for as, byMc := range byAcct {
+				a, _ := strconv.Atoi(as)
+				var got int64 = -1
+				for _, r := range res {
+					if int(r.AccountNumber) == a {
+						got = int64(r.AccountBalance)
+					}
+				}
+				if want := w.sumVal(byMc[mcs]); got != want {
+					w.add("balance", fmt.Sprintf("%s: account %d", what, a), got, fmt.Sprintf("%d (coins %v)", want, sorted(byMc[mcs])))
+				}
+			}
+		}
+	}
 	// created transactions
 	err = walletdb.View(e.db, func(tx walletdb.ReadTx) error {
 		ns := tx.ReadBucket(txmgrNs)
@@ -925,6 +951,15 @@ func (w *spWorld) checkResend(exp *spObs) {
 	for _, n := range exp.UnconfSends {
 		want[w.sendTx[n].TxHash()] = n
 	}
+	// still-unconfirmed incoming payments are wallet transactions as well ("each still-unconfirmed wallet
+	// transaction is offered to the backend again"); they are numbered -c
+	for c := 1; c <= w.nbase; c++ {
+		if c-1 < len(exp.St) {
+			if f, ok := exp.St[c-1].(float64); ok && f == 0 && w.txOf[c] != nil {
+				want[w.txOf[c].TxHash()] = -c
+			}
+		}
+	}
 	deadline := time.Now().Add(5 * time.Second)
 	var log []chainhash.Hash
 	for {
@@ -954,12 +989,19 @@ func (w *spWorld) checkResend(exp *spObs) {
 	w.n++
 	for h, n := range want {
 		if _, ok := pos[h]; !ok {
-			w.add("resend", fmt.Sprintf("unconfirmed created transaction #%d was not offered to the backend after the resynchronisation", n), len(log), "re-offered")
+			what := fmt.Sprintf("unconfirmed created transaction #%d", n)
+			if n < 0 {
+				what = fmt.Sprintf("the unconfirmed incoming payment of coin %d", -n)
+			}
+			w.add("resend", what+" was not offered to the backend after the resynchronisation", len(log), "re-offered")
 		}
 	}
 	// parents before children
 	for h, n := range want {
 		tx := w.sendTx[n]
+		if n < 0 {
+			continue // incoming payments spend nothing of the wallet's
+		}
 		for _, in := range tx.TxIn {
 			if pn, ok := want[in.PreviousOutPoint.Hash]; ok {
 				if pp, ok1 := pos[in.PreviousOutPoint.Hash]; ok1 {
